@@ -23,8 +23,8 @@ type Bus interface {
 // Info describes the executed instruction and how strictly its outcome is
 // specified (DESIGN.md 4.2).
 type Info struct {
-	Implemented bool  // encoding is in the table of encodings the pinned emulator implements
-	Documented  bool  // ... and is a documented Z80 instruction
+	Implemented bool // encoding is in the table of encodings the pinned emulator implements
+	Documented  bool // ... and is a documented Z80 instruction
 	Class       string
 	Len         int   // instruction-stream bytes consumed
 	M1          int   // opcode fetches (R increments)
@@ -35,7 +35,7 @@ type Info struct {
 	Repeat      bool  // block instruction left PC on itself
 	IsEI        bool
 	IsHalt      bool
-	Prefix      int // 0 none, 1 CB, 2 ED, 3 DD, 4 FD, 5 DDCB, 6 FDCB
+	Prefix      int  // 0 none, 1 CB, 2 ED, 3 DD, 4 FD, 5 DDCB, 6 FDCB
 	UsesIndex   bool // reads or writes the index register selected by the prefix
 	Taken       int  // conditional control transfer: 1 taken, 2 not taken, 0 n/a
 	// RLowFree: interrupt acknowledge by push (NMI, IM 1, IM 2): the low seven bits of R may or may not
